@@ -360,6 +360,45 @@ pub fn spaces(tier: Tier) -> Vec<Space<'static>> {
             }
         }));
     }
+    // deeper documents: the null-rich depth-3 universe, the deep (4-6 levels) and wide families
+    {
+        let d3 = univ::d3();
+        let n3 = d3.count(3);
+        let st3 = (n3 / if tier.thorough() { 20000 } else { 4000 }).max(1);
+        let (nd, nw) = (refmodel::gen::deep_count(), refmodel::gen::wide_count());
+        let (sd, sw) = if tier.thorough() { (5, 11) } else { (29, 61) };
+        let total = n3.div_ceil(st3) + nd.div_ceil(sd) + nw.div_ceil(sw);
+        sp.push(Space::new("deeper documents (depth-3 null-rich universe, deep and wide families; strided) as text vs JSONB", total, move |i, acc| {
+            let a = n3.div_ceil(st3);
+            let b = nd.div_ceil(sd);
+            let v = if i < a { d3.nth(3, i * st3) } else if i < a + b { refmodel::gen::deep_nth((i - a) * sd) } else { refmodel::gen::wide_nth((i - a - b) * sw) };
+            if !v.all_finite() {
+                return;
+            }
+            let bytes = enc(&v);
+            let plain = refmodel::text::print(&v);
+            let bin = match guard(|| observe_lite(&v, &bytes)) {
+                Ok(x) => x,
+                Err(p) => {
+                    acc.vio(&format!("binary-form:{}", panic_class(&p)), || json!({"doc": plain}));
+                    return;
+                }
+            };
+            acc.nontrivial += 1;
+            match guard(|| observe_lite(&v, plain.as_bytes())) {
+                Err(p) => acc.vio(&format!("plain-text:{}", panic_class(&p)), || json!({"doc": plain})),
+                Ok(r) => {
+                    for ((l, o1), (_, o2)) in bin.iter().zip(r.iter()) {
+                        acc.eval();
+                        if o1 != o2 {
+                            let f = l.split('(').next().unwrap_or("?");
+                            acc.vio(&format!("text!=binary:{}", f), || json!({"doc": plain, "call": l, "binary": o1.chars().take(200).collect::<String>(), "text": o2.chars().take(200).collect::<String>()}));
+                        }
+                    }
+                }
+            }
+        }));
+    }
     let c = corpus(tier);
     let c1 = c.clone();
     sp.push(Space::new("single-document-functions", c.len() as u64, move |i, acc| {
